@@ -2,6 +2,7 @@ package rules
 
 import (
 	"fmt"
+	"go/types"
 	"strings"
 
 	"golang.org/x/tools/go/ssa"
@@ -16,13 +17,66 @@ import (
 // the result is merged into the destination" is a predicate on the trace and
 // does not depend on which function the phases are called from.
 type loadPhases struct {
-	load, glob, ld, dec, bfd, mg *ssa.Function
+	load, glob, globAPI, ld, dec, bfd, mg *ssa.Function
+}
+
+// globalLoader returns the function that does the work of loading the global configuration: LoadGlobalConfig, or,
+// when that is only an entry point (locking, bookkeeping) that hands on to a single method of the loader and
+// returns what it returns, that method. api is the exported entry point.
+func globalLoader(p *an.Prog) (work, api *ssa.Function) {
+	api = p.Func("internal/config", "Loader", "LoadGlobalConfig")
+	work = api
+	for i := 0; i < 2 && work != nil; i++ {
+		var inner *ssa.Function
+		n := 0
+		an.EachInstr(work, func(in ssa.Instruction) {
+			call, ok := in.(*ssa.Call)
+			if !ok {
+				return
+			}
+			f := call.Call.StaticCallee()
+			if f == nil || !an.InModule(f) {
+				return
+			}
+			n++
+			// the results are returned as they are
+			direct := false
+			if call.Referrers() != nil {
+				for _, ret := range an.Returns(work) {
+					all := true
+					for k := range ret.Results {
+						ok := false
+						for _, src := range an.Sources(an.RetVal(ret, k)) {
+							if e, isE := src.(*ssa.Extract); isE && e.Tuple == ssa.Value(call) && e.Index == k {
+								ok = true
+							}
+							if src == ssa.Value(call) {
+								ok = true
+							}
+						}
+						all = all && ok
+					}
+					direct = direct || all
+				}
+			}
+			if direct && f.Signature.Recv() != nil && work.Signature.Recv() != nil && types.Identical(f.Signature.Recv().Type(), work.Signature.Recv().Type()) {
+				inner = f
+			}
+		})
+		if n != 1 || inner == nil {
+			break
+		}
+		work = inner
+	}
+	return work, api
 }
 
 func resolveLoadPhases(p *an.Prog) *loadPhases {
+	work, api := globalLoader(p)
 	return &loadPhases{
-		load: p.Func("internal/config", "Loader", "Load"),
-		glob: p.Func("internal/config", "Loader", "LoadGlobalConfig"),
+		load:    p.Func("internal/config", "Loader", "Load"),
+		glob:    work,
+		globAPI: api,
 		ld:   p.Func("internal/config", "Loader", "load"),
 		dec:  p.Func("internal/config", "Loader", "decode"),
 		bfd:  p.Func("internal/config", "", "buildFromDefinition"),
@@ -33,6 +87,12 @@ func resolveLoadPhases(p *an.Prog) *loadPhases {
 // loadTrace explores entry; all phase calls succeed.
 func loadTrace(p *an.Prog, ph *loadPhases, entry *ssa.Function) []an.Outcome {
 	phase := map[*ssa.Function]string{ph.glob: "global", ph.ld: "load", ph.dec: "decode", ph.bfd: "build", ph.mg: "merge"}
+	if ph.globAPI != nil {
+		phase[ph.globAPI] = "global"
+	}
+	if entry == ph.globAPI && ph.glob != nil {
+		entry = ph.glob
+	}
 	isPhase := func(call *ssa.CallCommon) (string, bool) {
 		if f := call.StaticCallee(); f != nil {
 			if n, ok := phase[f]; ok && f != entry {
